@@ -228,6 +228,11 @@ def run_case(case, rec):
                     # usable afterwards: a read through the same pooled connection
                     if sorted(lx.specifier() for lx in wn.lexicons()) != sorted(m.lex):
                         rec.violation(f'{op}:unusable-after-failure', f'wn.lexicons() wrong after {cls}#{k}')
+                    if op == 'remove' and cls != 'line':
+                        # (a line failpoint can fire between two statements of remove() itself - e.g. right after the handler
+                        # was installed and before the try block that removes it - where no operation the statement speaks of
+                        # can fail)
+                        _handler_gone(rec, counter, f'{cls}#{k}')
                 rec.done(f'{case["seed"]}/{op}/{cls}/{k}', nontrivial=True,
                          sample={'operation': op, 'class': cls, 'k': k, 'exception': failed[0],
                                  'resource': [lx['id'] for lx in R['lexicons']]})
@@ -282,10 +287,27 @@ def run_case(case, rec):
                 counter.n = 0
                 inject('add', 'corrupt', kind, run_bad, None)
 
+            # ---------------- a malformed file (rejected before anything is parsed), then the *same path* with the repaired content
+            # (inside a package directory half of the time: the file is then found by inspecting the directory)
+            again = work / 'again.xml'
+            target_again = again
+            if r.random() < 0.5:
+                (work / 'again-pkg').mkdir()
+                again = work / 'again-pkg' / 'again.xml'
+                target_again = work / 'again-pkg'
+            good_bytes = rpath.read_bytes()
+            again.write_bytes(good_bytes.replace(b'<!DOCTYPE', b'<!DOCTYP', 1))
+
+            def run_malformed():
+                wn.add(target_again, progress_handler=Faulty)
+            counter.n = 0
+            inject('add', 'corrupt', 'malformed-header', run_malformed, None)
+            again.write_bytes(good_bytes)
+
             # ---------------- recovery: the real add now succeeds and gives the normal result
             counter.n = 0
             with mon.call('add'):
-                wn.add(rpath, progress_handler=Faulty)
+                wn.add(target_again, progress_handler=Faulty)
             for key, msg in mon.check_atomic_success():
                 rec.violation('add:sql:' + key, msg)
             m.add_resource(R)
@@ -432,6 +454,7 @@ def run_case(case, rec):
             for key, msg in mon.check_atomic_success():
                 rec.violation('remove:sql:' + key, msg)
             m.remove(target)
+            _handler_gone(rec, counter, 'successful removal')
             if dbdump.dump(fdb.path) != after_remove:
                 rec.violation('remove:recovery-differs', 'remove after the injected failures differs from the same remove without them')
             if sorted(lx.specifier() for lx in wn.lexicons()) != sorted(m.lex):
@@ -467,6 +490,19 @@ def run_case(case, rec):
         import sys as _s
         _s.monitoring.register_callback(lf.tool, _s.monitoring.events.LINE, None)
         env.rmtree(work)
+
+
+def _handler_gone(rec, counter, label):
+    """After remove() has returned or raised, the caller's progress handler must not be invoked any more: a long-running
+    statement on the pooled connection (several 100 000 virtual-machine steps, more than the interval remove() uses)
+    must not reach it.  A handler left installed makes a later, larger operation fail or report to a dead object."""
+    import wn._db
+    n0 = counter.n
+    wn._db.connect().execute('WITH RECURSIVE c(x) AS (SELECT 1 UNION ALL SELECT x + 1 FROM c WHERE x < 250000) SELECT count(*) FROM c').fetchone()
+    rec.event('handler-gone.checked')
+    if counter.n != n0:
+        rec.violation('remove:handler-left-installed', f'after remove() ended ({label}) the progress handler given to it was still called '
+                      f'{counter.n - n0} times by a later statement on the same connection')
 
 
 def corruptions(R, r):
